@@ -3,10 +3,13 @@ From Coq Require Import Floats.
 From Miller Require Import Base.Bytes C06.Model C07.Model.
 Open Scope Z_scope.
 
-(* a * b >= 2^63 whose double product rounds to 2^63 - 1024: the threshold test lets the wrapped product through *)
-Lemma times_wraps_witness :
-  exists a b n, in64 a = true /\ in64 b = true /\ in64 (a * b) = false /\ eval_bin OTimes (NInt a) (NInt b) = RInt n.
-Proof. exists 16440948372290153, 561, (-9223372036854775783). vm_compute. repeat split. Qed.
+(* a * b >= 2^63 whose double product rounds to 2^63 - 1024: the threshold test alone would let the wrapped product
+   through; the division check catches it and the result is the float *)
+Lemma times_former_wrap_witness :
+  in64 (16440948372290153 * 561) = false /\
+  eval_bin OTimes (NInt 16440948372290153) (NInt 561) = RFloat (i2f 16440948372290153 * i2f 561)%float /\
+  bits_of_f (i2f 16440948372290153 * i2f 561)%float = float_of_int 9223372036854774784.
+Proof. vm_compute. repeat split. Qed.
 
 (* a * b fits but the double product exceeds the threshold: a float where the exact int fits (documented heuristic) *)
 Lemma times_float_when_fits_witness :
